@@ -63,3 +63,28 @@ Example c13_nonvacuous :
   s_height s = 2 /\ s_store s = [ex_b1] /\
   s_store (sync_run (sync0 ex_vals) [EResp 7 ex_b1_forged; EResp 1 ex_b2; ETick]) = [].
 Proof. vm_compute. repeat split. Qed.
+
+(* (5) the loop as the code runs it - the commit check of a block and its removal from the pool are
+   separate steps, and responses and peer removals happen in between (a removed peer's requester is
+   emptied and may be filled by another peer's block for the same height): for EVERY interleaving
+   the applied blocks are heights 1, 2, .. in order, each justified by a commit VerifyCommit accepts *)
+Theorem c13_check_and_pop_interleaved :
+  forall vals es, let s := s2_s (sync2_run (sync2_0 vals) es) in store_ok vals (s_store s) (s_height s).
+Proof. exact sync2_sound. Qed.
+Print Assumptions c13_check_and_pop_interleaved.
+
+(* (6) the block id a commit carries for itself plays no part: only the precommits inside count *)
+Theorem c13_commit_label_irrelevant :
+  forall vals b h l1 l2 pre, verify_commit vals b h (mkCommit l1 pre) = verify_commit vals b h (mkCommit l2 pre).
+Proof. exact commit_label_irrelevant. Qed.
+Print Assumptions c13_commit_label_irrelevant.
+
+(* non-vacuity: block 1 is checked; its peer is removed and a forged block 1 from another peer fills
+   the emptied slot before the pop: what is applied is the block that was checked *)
+Example c13_interleaved_nonvacuous :
+  let t := sync2_run (sync2_0 ex_vals) [E2Resp 1 ex_b1; E2Resp 1 ex_b2; E2Check; E2Remove 1; E2Resp 7 ex_b1_forged; E2Pop] in
+  s_store (s2_s t) = [ex_b1] /\ s_height (s2_s t) = 2 /\
+  s2_checked (sync2_run (sync2_0 ex_vals) [E2Resp 1 ex_b1; E2Resp 1 ex_b2; E2Check]) = Some ex_b1 /\
+  pool_get (s_pool (s2_s (sync2_run (sync2_0 ex_vals) [E2Resp 1 ex_b1; E2Resp 1 ex_b2; E2Check; E2Remove 1; E2Resp 7 ex_b1_forged]))) 1
+    = Some (7%N, ex_b1_forged).
+Proof. vm_compute. repeat split. Qed.
